@@ -238,7 +238,7 @@ pt_state_t console_run(console_t *c)
 			do_prompt(c);
 		} else if (ch == '\b') {
 			if (c->bufp > c->scratch.buf) {
-				c->bufp--;
+				*--c->bufp = '\0';
 				fprintf(c->out, " \b");
 			} else {
 				fprintf(c->out, " ");
